@@ -82,18 +82,13 @@ Theorem C13_resolves : forall class_attrs s n it,
   lookup_ix s (KStr (sess it)) = IOk n /\ getitem s (KStr (sess it)) = IOk it /\
   (existsb (str_eqb (sess it)) class_attrs = false -> str_eqb (sess it) s_mnemonic_transforms = false ->
    py_getattr class_attrs s (sess it) = IOk (AttrItem it)).
-Proof.
-  intros ca s n it [_ [H2 _]] E. destruct (H2 n it E) as [L G]. split; [assumption|split; [assumption|]].
-  intros X1 X2. rewrite py_getattr_present; auto.
-  - rewrite G. reflexivity.
-  - apply contains_iff. eauto.
-Qed.
+Proof. exact inv_resolves. Qed.
 
 (* I3 for blank originals: they appear as UNKNOWN (or UNKNOWN:<k>) *)
 Theorem C13_blank_unknown : forall s it,
   Inv s -> In it (items s) -> is_blank (orig it) = true ->
   sess it = s_UNKNOWN \/ exists k, sess it = s_UNKNOWN ++ suffix k.
-Proof. intros s it [_ [_ H3]] Hit B. apply wf_blank; auto. Qed.
+Proof. exact inv_blank_unknown. Qed.
 
 (* ---- numbering after an insertion ------------------------------------------------------ *)
 (* After insert(i, x) / append(x): position n of the section holds the item the plain list
@@ -105,13 +100,13 @@ Theorem C13_numbering_insert : forall s i a n it',
   nth_error (items (insert s i (make a))) n = Some it' ->
   exists it, nth_error (py_insert i (make a) (items s)) n = Some it /\ payload it' = payload it /\
              sess it' = numbered (transforms s) (useful (make a)) (py_insert i (make a) (items s)) n it.
-Proof. intros s i a n it' H. unfold insert in H. apply numbering_after. exact H. Qed.
+Proof. exact numbering_insert. Qed.
 
 Theorem C13_numbering_append : forall s a n it',
   nth_error (items (append s (make a))) n = Some it' ->
   exists it, nth_error (items s ++ [make a]) n = Some it /\ payload it' = payload it /\
              sess it' = numbered (transforms s) (useful (make a)) (items s ++ [make a]) n it.
-Proof. intros s a n it' H. unfold append in H. apply numbering_after. exact H. Qed.
+Proof. exact numbering_append. Qed.
 
 (* the ranks of the members of a group are 0 .. count-1, strictly increasing in section order:
    the numbers are :1 .. :n *)
@@ -119,11 +114,7 @@ Theorem C13_numbering_order : forall tr t l i j a b,
   (i < j)%nat -> nth_error l i = Some a -> nth_error l j = Some b ->
   in_group tr t a = true -> in_group tr t b = true ->
   (rank tr t l i < rank tr t l j < group_count tr t l)%nat.
-Proof.
-  intros tr t l i j a b Hij Ha Hb Ga Gb. split.
-  - eapply rank_lt; eauto.
-  - eapply rank_member_lt_count; eauto.
-Qed.
+Proof. exact numbering_order. Qed.
 
 (* ---- I4: originals are never altered --------------------------------------------------- *)
 Theorem C13_orig_frame_append : forall s it, origs (append s it) = origs s ++ [orig it].
@@ -148,7 +139,7 @@ Proof. exact origs_step_incl. Qed.
    otherwise it is <useful>:<position within the group>; the originals are the file's. *)
 Theorem C13_read_names : forall tr l,
   keys (read_section tr l) = spec_keys tr (List.map a_mnem l) /\ origs (read_section tr l) = List.map a_mnem l.
-Proof. intros. split; [apply read_keys|apply read_origs]. Qed.
+Proof. exact read_names. Qed.
 
 (* write() emits the originals; reading those again assigns the same session names *)
 Theorem C13_roundtrip_names : forall tr l l2,
@@ -179,7 +170,7 @@ Example C13_ex_numbered :
   List.map sess (items (insert (read_section false [hdr "A"; hdr "B"; hdr "A"]) 1 (make (hdr "A"))))
   = [s2l "A:1"; s2l "A:2"; s2l "B"; s2l "A:3"].
 Proof. vm_compute. reflexivity. Qed.
-(* a literal "A:1" alone is harmless and admitted by the hypothesis (it only excludes it next to A) *)
+(* a literal "A:1" alone is harmless and allowed by the hypothesis (it only excludes it next to A) *)
 Example C13_ex_literal_alone : no_suffix_clash false [s2l "A:1"; s2l "B"].
 Proof.
   intros a b k Ha Hb. simpl in Ha, Hb.
